@@ -153,6 +153,7 @@ def _second_loop_scenario(rng, i):
 
 fam(ScenarioFamily('second_loop', ('C08',), _second_loop_scenario, 200, 2000))
 fam(ScenarioFamily('gather', ('C04',), gen.gather_scenario, 300, 3000))
+fam(ScenarioFamily('late_fwd', ('C07',), gen.late_fwd_scenario, 200, 2000))
 fam(ScenarioFamily('late_on', ('C01', 'C09', 'C11', 'C03'), gen.late_on_scenario, 300, 3000))
 fam(EnumFamily('fwdback_timeout_enum', ('C10', 'C08'), gen.fwdback_base, gen.fwdback_derive, 6, 100, 40, 150))
 fam(ScenarioFamily('manual_step', ('C06',), gen.manual_step_scenario, 150, 1500))
@@ -418,6 +419,7 @@ CHECKS['C14'].floors['c14_noloop_dispatches'] = {'quick': 50, 'thorough': 500}
 CHECKS['C06'].families.append('manual_step')
 CHECKS['C08'].families.append('fwdback_timeout_enum')
 CHECKS['C02'].families.append('capacity')  # bursts that fill the bounded queue: order among accepted events, rejected ones aside
+CHECKS['C07'].families.append('late_fwd')
 CHECKS['C10'].families.append('fwdback_timeout_enum')  # a forwarded-back event that has already signalled gets fresh pending results inside a timed handler's drain
 for _p in ('C06', 'C10', 'C02'):
     CHECKS[_p].families.append('double_cancel_enum')  # a second cancellation while the first one is still being cleaned up
